@@ -242,7 +242,7 @@ Proof.
   intros F. unfold step. destruct (enabled cf t o) eqn:En; [| simpl; lia].
   destruct o; gd En; unfold apply, exit_client; cbn [cl cids sv sids creg sreg at_ andb txn_of_client qry_of_client];
     unfold upd; eqb_all; cbn; try lia.
-  all: try (match goal with H : c_phase (cl t ?x) = PNone |- _ => destruct (F x H) as [A [B _]] end; lia).
+  all: try (match goal with H : c_phase (cl _ ?x) = PNone |- _ => destruct (F x H) as [A [B _]] end; lia).
 Qed.
 
 Lemma client_counts cf ops c :
